@@ -22,18 +22,18 @@ theorem iter_is_array_iter (s t : Stack) (it : ArrIter) (x y : Nat) (m : Mem) :
 
 /-- **complete traversal**: `size + 1` calls of `cc_stack_iter_next` on a fresh iterator yield exactly
 the live elements bottom to top, then `CC_ITER_END` — at every fill level, exactly full included -/
-theorem traversal_complete (s : Stack) (m : Mem) (hinv : s.Inv) (hlive : 0 < m.live) :
+theorem traversal_complete (s : Stack) (m : Mem) (hinv : s.Inv) :
     (s.v.iterRun {} (List.replicate (s.size + 1) .next) m).1 =
       s.abs.map (fun x => ({ st := some .ok, val := some x } : Out)) ++ [{ st := some .iterEnd }] :=
-  C07Array.traversal_complete s.v m hinv hlive
+  C07Array.traversal_complete s.v m hinv
 
 /-- **every next/replace program refines the ideal cursor** (the stack offers no structural change
 through its iterator, so the traversal always covers exactly the original positions) -/
 theorem program_refines (ops : List IterOp) (s : Stack) (it : ArrIter) (c : Cursor) (m : Mem) (hinv : s.Inv)
-    (hlive : 0 < m.live) (hs : Arr.Sim s.v it c) :
+    (hs : Arr.Sim s.v it c) :
     (s.v.iterRun it ops m).1 = (c.run ops ((s.v.iterRun it ops m).1.map Out.blocked)).1 ∧
     Arr.Sim (s.v.iterRun it ops m).2.1 (s.v.iterRun it ops m).2.2.1 (c.run ops ((s.v.iterRun it ops m).1.map Out.blocked)).2 :=
-  ⟨(C07Array.program_refines ops s.v it c m hinv hlive hs).1, (C07Array.program_refines ops s.v it c m hinv hlive hs).2.1⟩
+  ⟨(C07Array.program_refines ops s.v it c m hinv hs).1, (C07Array.program_refines ops s.v it c m hinv hs).2.1⟩
 
 theorem next_sim (s : Stack) (it : ArrIter) (c : Cursor) (m : Mem) (hinv : s.Inv) (hs : Arr.Sim s.v it c) :
     (s.iterNext it m).1 = c.next.1 ∧ (s.iterNext it m).2.1 = c.next.2.1 ∧
